@@ -304,6 +304,10 @@ class CounterToken(Token, FileSystemEventHandler):
         except FileNotFoundError:
             # We did not find the token file... just ignore
             pass
+        except ValueError:
+            # The token file has been created but not written yet: it will
+            # be read when the modification event arrives
+            pass
         except Exception:
             logger.exception("Uncaught exception in on_modified handler")
             raise
@@ -327,7 +331,12 @@ class CounterToken(Token, FileSystemEventHandler):
                         "Not reading token file [%f <= %f]", timestamp, self.timestamp
                     )
 
-                total = int(self.infopath.read_text())
+                text = self.infopath.read_text()
+                if text == "":
+                    # The file is being rewritten: another event will follow
+                    return
+
+                total = int(text)
                 delta = total - self.total
                 self.total = total
                 self.available += delta
@@ -353,6 +362,9 @@ class CounterToken(Token, FileSystemEventHandler):
                             self.cache[path.name] = tokenfile
                         except FileNotFoundError:
                             # Well, the file did not exist anymore...
+                            pass
+                        except ValueError:
+                            # Not fully written yet (another event will follow)
                             pass
         except Exception:
             logger.exception("Uncaught exception in on_modified handler")
